@@ -22,6 +22,8 @@ WIDTHS = [25, 50, 100, 200, 400, 800, 1600]
 
 def make(c):
     b, r, d = c["b"], c["r"], c["d"]
+    if c.get("percall") is not None:
+        r = c["percall"]                  # the object is built with another rate; the call passes r=
     ctor = c.get("ctor", "br")
     if ctor == "bc":
         k = guard(Keccak, b=b, c=b - r, len=d)
@@ -35,20 +37,24 @@ def make(c):
     return k
 
 
-def call(k, M, L):
+def call(k, M, L, r=None):
+    if r is not None:
+        return guard(k, M, r=r) if L is None else guard(k, M, bitlen=L, r=r)
     return guard(k, M) if L is None else guard(k, M, bitlen=L)
 
 
 def check_sponge(c):
     M, L, d = c["M"], c["L"], c["d"]
     k = make(c)
-    got = call(k, M, L)
+    got = call(k, M, L, c["r"] if c.get("percall") is not None else None)
     Leff = 8 * len(M) if L is None else L
     exp = R.keccak(c["b"], c["r"], M, Leff, d, c["nist"])
     expect(isinstance(got, bytes), "sponge:type", "bytes", type(got).__name__)
     eq(len(got), (d + 7) // 8, "sponge:output-length")
     if got != exp:
-        raise Violation("sponge!=reference:%s" % sig_class(c), exp, got)
+        raise Violation("sponge!=reference:%s%s" % ("per-call-rate," if c.get("percall") is not None else "", sig_class(c)), exp, got)
+    if c.get("percall") is not None:
+        eq((k.r, k.c), (c["percall"], c["b"] - c["percall"]), "per-call-rate:object-rate-changed")
 
 
 def sig_class(c):
@@ -74,6 +80,8 @@ def classify_sponge(c):
     m = Leff % r
     if m in (0, 1, r - 2, r - 1):
         lab.append("L mod r=%s" % {0: "0", 1: "1", r - 2: "r-2", r - 1: "r-1"}[m])
+    if c.get("percall") is not None:
+        lab.append("per-call rate")
     if c["L"] is not None:
         lab.append("L%%8=%d" % (c["L"] % 8))
         if (c["L"] + 7) // 8 < len(c["M"]):
@@ -103,10 +111,12 @@ def sponge_strategy(tier):
             ds = gen.pick((2, st.sampled_from(sorted(set([1, 8, max(1, r - 1), r, r + 1, 2 * r + 3])))), (1, gen.uint(1, 3 * r)),
                           (1, st.sampled_from([8, 64, 128, 224, 256, 512])))
 
-            def build(L, d, nist, ctor, lmode, content, extra):
+            def build(L, d, nist, ctor, lmode, content, extra, pc):
                 nb = (L + 7) // 8
                 M = (content * (nb // len(content) + 1))[:nb]
                 c = {"b": b, "r": r, "d": d, "nist": nist, "ctor": ctor}
+                if pc is not None:
+                    c["percall"] = 1 + pc % min(b - 1, 1536)
                 if L == 0:
                     c["M"], c["L"] = b"", None
                 elif lmode == 0 and L % 8 == 0:
@@ -117,7 +127,7 @@ def sponge_strategy(tier):
                     c["M"], c["L"] = M, L
                 return c
             return st.builds(build, Ls, ds, st.booleans(), st.sampled_from(["bc", "rc", "br"]), gen.uint(0, 2),
-                             gen.blob(48), gen.blob_of(gen.uint(1, 5)))
+                             gen.blob(48), gen.blob_of(gen.uint(1, 5)), gen.pick((3, st.none()), (1, gen.uint(0, 1535))))
         return rate_strategy(b).flatmap(for_r)
     return st.sampled_from(WIDTHS).flatmap(for_b)
 
@@ -271,7 +281,7 @@ FACETS = [
           shards={"quick": 16, "thorough": 32},
           nontrivial=lambda c: (c["L"] or 8 * len(c["M"])) >= 1 or c["d"] > c["r"], classify=classify_sponge,
           rule="all 7 widths; rate boundary-biased on {1,2,7,8,9,b-2,b-1,multiples of 8/of the lane size, standard rates}; L = k*r + {0,1,r-2,r-1,uniform}; "
-               "d in {1,8,r-1,r,r+1,2r+3,...}; both modes; 3 constructor keyword combinations; L absent / exact / prefix of a longer byte string"),
+               "d in {1,8,r-1,r,r+1,2r+3,...}; both modes; 3 constructor keyword combinations; rate given at construction or per call (r=) on an object built with another rate; L absent / exact / prefix of a longer byte string"),
     Facet("fips202-sweep", check_fips, cases=fips_sweep, nontrivial=lambda c: len(c["M"]) >= 1, classify=lambda c: (c["f"],),
           shards={"quick": 16, "thorough": 32},
           rule="SHA3-224/256/384/512, SHAKE128/256 (several output lengths incl. > rate) on every byte length near 0 and across the rate boundary "
